@@ -132,11 +132,38 @@ def tuple_sum(zs, k, first=None):
     return tot, cnt
 
 
+def tuple_sum_poly(zs, k):
+    """the same sum over ordered 2k-tuples of distinct positions for LARGE events, still exact: (k!)^2 times the coefficient of
+    x^k y^k of prod_j (1 + x z_j + y conj z_j) (each position is used at most once, in the x-part or in the y-part)"""
+    c = [[CQ(0) for _ in range(k + 1)] for _ in range(k + 1)]
+    c[0][0] = CQ(1)
+    for z in zs:
+        zc = z.conj()
+        for a in range(k, -1, -1):
+            for b in range(k, -1, -1):
+                v = c[a][b]
+                if a > 0:
+                    v = v + z * c[a - 1][b]
+                if b > 0:
+                    v = v + zc * c[a][b - 1]
+                c[a][b] = v
+    f = math.factorial(k) ** 2
+    cnt = 1
+    for i in range(2 * k):
+        cnt *= (len(zs) - i)
+    return CQ(c[k][k].r * f, c[k][k].i * f), max(cnt, 0)
+
+
 def def_corr(case, k, flags=None):
     """<<2k>> by the definition: average over all tuples of all events (None when there is no tuple)"""
     num, den = Fraction(0), 0
     for e, ev in enumerate(case["events"]):
         zs = [CQ(*zpoint(s["p"], s["q"])) for s in ev]
+        if flags is None and len(zs) > 14:
+            s, c = tuple_sum_poly(zs, k)
+            num += s.r
+            den += c
+            continue
         s, c = tuple_sum(zs, k, None if flags is None else flags[e])
         num += s.r
         den += c
@@ -303,6 +330,9 @@ def gen_case(rng, small=False, errors=True):
     return case
 
 
+BIG_PROBES = False
+
+
 def probe_cases():
     ev = [{"p": p, "q": qq, "j": 0, "pt": pt, "eta": eta, "pdg": 211}
           for p, qq, pt, eta in ((0, 1, 0.5, 0.25), (1, 1, 0.75, -0.25), (1, 2, 1.5, 0.75), (-1, 3, 0.25, 0.25), (2, 1, 1.25, -0.75), (1, 0, 0.5, 0.25))]
@@ -311,6 +341,16 @@ def probe_cases():
         for k in (2, 4):
             out.append({"n": 2, "k": k, "imag": "negative", "mode": "diff", "events": [ev, ev[:5]], "sel": sel,
                         "bins": [-3.0, 3.0], "poi": None})
+    # large multiplicities (thousands of particles, as in central heavy-ion events): the number of 6-tuples exceeds 2^63
+    pts = ((0, 1, 0.5, 0.25), (1, 1, 0.75, -0.25), (1, 2, 1.5, 0.75), (-1, 3, 0.25, 0.25), (2, 1, 1.25, -0.75), (1, 0, 0.5, 0.25),
+           (3, 2, 0.5, 0.5), (-2, 5, 1.0, -0.5), (1, 4, 2.0, 0.125), (-3, 1, 0.5, -1.0), (2, 3, 0.75, 0.0))
+    def big(M, shift):
+        return [{"p": pts[(i * 7 + shift) % 11][0], "q": pts[(i * 7 + shift) % 11][1], "j": i % 2, "pt": pts[(i + shift) % 11][2],
+                 "eta": pts[(i * 3) % 11][3], "pdg": 211} for i in range(M)]
+    for n, k, ms in ((2, 6, (1500, 9)), (3, 6, (2100, 1460)), (2, 4, (1800,)), (2, 6, (66000,))):
+        if max(ms) > 3000 and not BIG_PROBES:
+            continue
+        out.append({"n": n, "k": k, "imag": "negative", "mode": "int", "events": [big(M, e) for e, M in enumerate(ms)], "big": True})
     return out
 
 
@@ -546,8 +586,9 @@ def search(ctx):
     """property oracle on the real code over small samples; one shrunk failing input per failure class"""
     found, n, seen = [], 0, set()
     budget = 150 if ctx.quick else 1500
-    for _ in range(budget):
-        c = gen_case(ctx.rng, small=True, errors=False)
+    bigs = [pc for pc in probe_cases() if pc.get("big")]
+    for i in range(budget + len(bigs)):
+        c = bigs[i] if i < len(bigs) else gen_case(ctx.rng, small=True, errors=False)
         n += 1
         try:
             msg = oracle(c)
@@ -558,7 +599,7 @@ def search(ctx):
             if cl in seen:
                 continue
             seen.add(cl)
-            c = shrink(c, cl)
+            c = c if c.get("big") else shrink(c, cl)
             found.append(Failure(c, f"{cl}: property oracle fails on the implementation", on_impl=oracle(c)))
             if len(found) >= 5:
                 break
